@@ -31,23 +31,58 @@ def has_quantifier(e, _memo={}):
     return r
 
 
-def _hyps(ctx, using):
+def _flatten(hyps):
+    out = []
+    for h in hyps:
+        if z3.is_and(h):
+            out += _flatten(h.children())
+        else:
+            out.append(h)
+    return out
+
+
+def _hyps(ctx, using, flatten=False):
     """Hypotheses of a lemma: all of them (using=None), or the quantifier-free ones plus the listed quantified facts.
-    Proving from a subset is sound; every listed fact must BE a current hypothesis (checked), so nothing can be smuggled in."""
+    Proving from a subset is sound; every listed fact must BE a current hypothesis (checked), so nothing can be smuggled in.
+    flatten=True: top-level conjunctions among the hypotheses are split first (a conjunct of a hypothesis is a hypothesis)."""
     hyps = list(ctx.hyps())
     if using is None:
         return hyps
+    if flatten:
+        hyps, using = _flatten(hyps), _flatten(using)
+    ids = set(h.get_id() for h in hyps)
     for u in using:
-        if not any(u.eq(h) for h in hyps):
+        if u.get_id() not in ids and not any(u.eq(h) for h in hyps):
             raise RuntimeError('lemma hint is not a hypothesis of the path: %s' % str(u)[:200])
     return [h for h in hyps if not has_quantifier(h)] + list(using)
 
 
-def lemma(ctx, name, formula, using=None):
-    """assert-then-assume like ctx.lemma, optionally proved from a named subset of the quantified hypotheses."""
+def lemma(ctx, name, formula, using=None, flatten=False, skolemize=False, instances=None):
+    """assert-then-assume like ctx.lemma, optionally proved from a named subset of the quantified hypotheses.
+    skolemize=True: a goal `forall x. P(x)` is handed to the solver as P(c) for fresh constants c (forall-introduction: c occurs in
+    no hypothesis, so the two obligations are equivalent; the solver's own Skolemisation does the same, this only makes the ground
+    terms of the goal visible from the start).  What is assumed afterwards is the quantified formula.
+    instances(c) -> [(hypothesis, (t1..tk))]: ground instances of universally quantified hypotheses (each checked to BE a hypothesis
+    of the path) added to the obligation's hypotheses -- forall-elimination, sound, and lets a lemma be proved without quantifiers."""
     from .values import zbool
     f = zbool(formula)
-    ctx.obligations.append(('lemma:' + name, _hyps(ctx, using), f, 'lemma', None, None))
+    goal, cs = f, []
+    if skolemize and z3.is_quantifier(f) and f.is_forall():
+        cs = [z3.Const(ctx.name('sk!%s!%s' % (name, f.var_name(i))), f.var_sort(i)) for i in range(f.num_vars())]
+        goal = z3.substitute_vars(f.body(), *reversed(cs))
+    if nparr.BOUND is not None:
+        # counterexample search (bounded, quantifiers expanded): everything is quantifier-free already, use all hypotheses
+        hyps, instances = list(ctx.hyps()), None
+    else:
+        hyps = _hyps(ctx, using, flatten)
+    if instances is not None:
+        allh = _flatten(list(ctx.hyps())) if flatten else list(ctx.hyps())
+        ids = set(h.get_id() for h in allh)
+        for h, args in instances(*cs):
+            if h.get_id() not in ids or not (z3.is_quantifier(h) and h.is_forall() and h.num_vars() == len(args)):
+                raise RuntimeError('lemma instance: not a universally quantified hypothesis of the path: %s' % str(h)[:200])
+            hyps.append(z3.substitute_vars(h.body(), *reversed(list(args))))
+    ctx.obligations.append(('lemma:' + name, hyps, goal, 'lemma', None, None))
     ctx.assume(f)
     return f
 
